@@ -76,6 +76,7 @@ func runC04(c *Ctx) {
 	// structural premise of the delivery clause: a registered pipeline is never absent from the
 	// sync.Map between its registration and its removal — an overwrite is one Store
 	c.ruleSingleStore("C04.swap")
+	c.ruleOneSection("C04.section")
 
 	c.pairingRule("C04.pairing", func(fn *ssa.Function) bool { return PkgPathOf(fn) == PkgRoot }, false)
 	r.Floor("C04.pairing", 10)
